@@ -91,7 +91,7 @@ def out_of_domain(term, bounds):
 def real(case):
     k = case['kind']
     if k == 'mux':
-        r = quiet(muxreal.run_mux, case['term'], case['items'], bounds=case.get('bounds', True))
+        r = quiet(muxreal.run_mux, case['term'], case['items'], bounds=case.get('bounds', True), prelude=case.get('prelude'))
         r['chunks'] = muxreal.trunc_chunks(r['chunks'])
         return r
     if k == 'raw':
@@ -99,10 +99,61 @@ def real(case):
         r['chunks'] = trunc_ev_chunks(r['chunks'])
         return r
     if k == 'plain':
-        r = quiet(muxreal.run_plain, case['term'], case['items'])
+        r = quiet(muxreal.run_plain, case['term'], case['items'], prelude=case.get('prelude'))
         r['chunks'] = muxreal.trunc_chunks(r['chunks'])
         return r
     raise ValueError(k)
+
+
+# ------------------------------------------------------------------------------------------------
+# re-subscription: the same pipeline OBJECT subscribed a second time (a new lifetime of the root key in
+# the same store on the multiplexed path; a new sequence through the same operator closures on the plain path)
+# ------------------------------------------------------------------------------------------------
+
+PRELUDE_ENDS = ('complete', 'complete', 'dispose', 'error')
+
+
+def add_prelude(case, rng):
+    """copy of a mux/plain case that is run as the SECOND subscription of its pipeline object"""
+    if case.get('kind') not in ('mux', 'plain') or 'prelude' in case:
+        return None
+    items = list(case.get('items') or [])
+    k = rng.choice([0, 1, 2, 3, len(items)])
+    pre = items[:k] if rng.random() < 0.7 else [rng.choice(items) for _ in range(k)] if items else []
+    c = dict(case)
+    c['prelude'] = {'items': pre, 'end': rng.choice(PRELUDE_ENDS)}
+    return c
+
+
+def with_preludes(cases, rng, frac=0.12):
+    """every case, and for a fraction of them additionally the re-subscription variant"""
+    for c in cases:
+        yield c
+        if rng.random() < frac:
+            p = add_prelude(c, rng)
+            if p is not None:
+                yield p
+
+
+def prelude_violation(case, r):
+    """oracle for a case with a prelude, judging the real code alone: the second subscription must emit what a
+    fresh pipeline object emits on the same items (outputs of a lifetime / of a sequence depend on its own items only)"""
+    if not case.get('prelude') or 'harness_exc' in r:
+        return None
+    fresh_case = dict(case)
+    del fresh_case['prelude']
+    f = real(fresh_case)
+    if r['chunks'] != f['chunks']:
+        for i, (a, b) in enumerate(zip(r['chunks'], f['chunks'])):
+            if a != b:
+                return ('re-subscription: after an earlier subscription of the same pipeline object (items %s, ended by %s) '
+                        '%s over %s emits %s while item %d is processed; a fresh pipeline object emits %s'
+                        % (case['prelude'].get('items'), case['prelude'].get('end'), json.dumps(case['term'])[:200],
+                           case['items'], json.dumps(a)[:200], i - 1, json.dumps(b)[:200]))
+    if r.get('dead') != f.get('dead'):
+        return ('re-subscription: dead letters of the second run %s, of a fresh router %s (pipeline %s, items %s)'
+                % (r.get('dead'), f.get('dead'), json.dumps(case['term'])[:200], case['items']))
+    return None
 
 
 def model_cmds(case):
@@ -149,7 +200,9 @@ def compare(case, r, m):
         return 'chunk count: real=%d model=%d' % (len(r['chunks']), len(m['chunks']))
     if case['kind'] in ('mux', 'raw') and m['chunks'] != m['l2']:
         return 'model L1 differs from model L2 (keyed reference): theorem impl_eq_ref would be false here'
-    if case['kind'] == 'mux' and not has_fatal(r['chunks']) and r.get('bounds'):
+    # after an earlier subscription the index counter of group_by goes on where it stopped: inner keys of the second
+    # subscription are fresh but not the model's (which starts from 0), so only the outputs are compared there
+    if case['kind'] == 'mux' and not has_fatal(r['chunks']) and r.get('bounds') and not case.get('prelude'):
         for lab, tr in r['bounds'].items():
             mt = m['bounds'].get(lab)
             if mt != tr:
